@@ -35,11 +35,6 @@ func VX_C04_positions_literals() {
 			c := src[i]
 			vxAssume(c == '\\' || c == '\n' || c == '"' || c == 'x' || c == 'u' || c == 'a')
 		}
-		for i := 0; i+1 < n; i++ {
-			// backslash-newline is the recorded known finding of VX_C04_positions_modes; it is kept out
-			// here so that any other position defect of the string scanner is still reported
-			vxAssume(!(src[i] == '\\' && src[i+1] == '\n'))
-		}
 		l = New(src)
 		l.pushMode(stringLiteralMode)
 	} else {
@@ -51,4 +46,18 @@ func VX_C04_positions_literals() {
 		l.pushMode(regexLiteralMode)
 	}
 	vxCheckStream(l, src, n, "literals", true)
+}
+
+// single-line comments: `#` or `//`, two arbitrary bytes (so every one- and two-byte character,
+// and every invalid byte), a newline and an identifier: the comment's characters are counted as
+// characters, not bytes, and the tokens after it are on the next line
+func VX_C04_positions_comment() {
+	body := vxString("body", 2)
+	var src string
+	if vxSplit("slash", 2) == 0 {
+		src = "#" + body + "\na"
+	} else {
+		src = "//" + body + "\na"
+	}
+	vxCheckStream(New(src), src, len(src), "comment", true)
 }
